@@ -140,7 +140,7 @@ fn window(run: &Run, name: &str, base: u64) {
 pub fn run(run: &Run) {
     run.set_rule(
         "Generator: (a) exhaustive windows: every entry Single(c) / Range(a..=b) with base <= a <= b <= base+32 against every code point in \
-         base-2..=base+34, for base = 0, 0x10FFEF (around U+10FFFF) and u32::MAX-32 (top of the range); (b) proptest (entry, cp) pairs over all \
+         base-2..=base+34, for base = 0, 0x10FFEF (around U+10FFFF), u32::MAX-32 (top of the range), around U+D800, U+DFFF, U+FFFF/U+10000, 2^29 and 2^31; (b) proptest (entry, cp) pairs over all \
          u32 with cp biased to start/end +-1; (c) proptest sorted disjoint tables (1..40 entries) probed at every boundary +-1. Oracle: the \
          mathematical definition (Less <=> end < cp, Greater <=> start > cp, Equal <=> contained) for partial_cmp, <,<=,>,>=,==,!= in both \
          operand orders; binary_search_by(partial_cmp) == linear scan. Non-trivial: cp within +-1 of start or end, or an extreme value; \
@@ -149,8 +149,14 @@ pub fn run(run: &Run) {
     window(run, "window_0", 0);
     window(run, "window_10FFFF", 0x10ffef);
     window(run, "window_u32max", u32::MAX as u64 - 32);
+    window(run, "window_surrogates_start", 0xd7f0);
+    window(run, "window_surrogates_end", 0xdfe8);
+    window(run, "window_bmp_end", 0xffe8);
+    window(run, "window_i32max", 0x7fff_ffe8);
+    window(run, "window_2pow29", 0x1fff_ffe8);
     let mk_pairs = || {
-        (any::<bool>(), any::<u32>(), any::<u32>(), 0u8..8, -2i64..=2).prop_map(|(range, p, q, mode, delta)| {
+        let special = prop_oneof![4 => any::<u32>(), 1 => 0xd7f0u32..0xe010, 1 => 0xfff0u32..0x10010, 1 => 0x10fff0u32..0x110010, 1 => 0u32..0x3000, 1 => (u32::MAX - 64)..=u32::MAX];
+        (any::<bool>(), special.clone(), special, 0u8..8, -2i64..=2).prop_map(|(range, p, q, mode, delta)| {
             let (a, b) = if p <= q { (p, q) } else { (q, p) };
             let e = Entry { range, a, b: if range { b } else { a } };
             let x = match mode {
